@@ -103,7 +103,7 @@ func (x *Exec) modInstr(ms *modSet, in ssa.Instruction, visiting map[*ssa.Functi
 		switch a := r.(type) {
 		case *ssa.Alloc:
 			T := a.Type().(*types.Pointer).Elem()
-			if _, isStruct := T.Underlying().(*types.Struct); isStruct && a.Heap {
+			if _, isStruct := T.Underlying().(*types.Struct); (isStruct && a.Heap) || (a.Heap && escapesAsValue(a)) {
 				n, s := x.heapName(T)
 				x.addArr(ms, n, s)
 			} else if at, isArr := T.Underlying().(*types.Array); isArr {
@@ -146,7 +146,7 @@ func (x *Exec) modInstr(ms *modSet, in ssa.Instruction, visiting map[*ssa.Functi
 		x.addArr(ms, n, s)
 	case *ssa.Alloc:
 		T := in.Type().(*types.Pointer).Elem()
-		if _, isStruct := T.Underlying().(*types.Struct); isStruct && in.Heap {
+		if _, isStruct := T.Underlying().(*types.Struct); (isStruct && in.Heap) || (in.Heap && escapesAsValue(in)) {
 			n, s := x.heapName(T)
 			x.addArr(ms, n, s)
 		} else if at, isArr := T.Underlying().(*types.Array); isArr {
